@@ -171,6 +171,14 @@ def _compare(run, har, refdec, where):
                 ix, {key: _brief(got.get(key)) for key in diff}, {key: _brief(want.get(key)) for key in diff})))
             return False
     closed = har.victim_closed()
+    if closed and len(handled) < len(ref) and not any(got.get('kind') == 'SESS_TERM' for (_seq, got) in handled) \
+            and not any(msg['kind'] in ('SESS_TERM', 'MSG_REJECT') for msg in har.vmsgs):
+        # the stream is legal throughout and nobody asked for termination: nothing entitles the endpoint to hang up,
+        # least of all the position of a read boundary
+        stuck = ref[len(handled)]
+        run.viols.append(('closed', 'mid-stream-' + stuck['kind'], 'the endpoint closed the connection in the middle of a valid stream, %s ending at offset %d never acted on (%s); %d octets delivered' % (
+            stuck['kind'], stuck['end'], where, len(har.sent))))
+        return False
     if len(handled) < len(ref) and not closed:
         stuck = ref[len(handled)]
         run.viols.append(('late', stuck['kind'] + ('@last-octet' if stuck['end'] == len(har.sent) else ''),
